@@ -51,6 +51,7 @@ var flavourFlags = map[string][]string{
 	"mphase-race": {"-tags", "verif coraza.rule.multiphase_evaluation", "-race"},
 	"prefilter":   {"-tags", "verif coraza.rule.rx_prefilter"},
 	"csargs":      {"-tags", "verif coraza.rule.case_sensitive_args_keys"},
+	"nomline":     {"-tags", "verif coraza.rule.no_regex_multiline"},
 }
 
 func verifRoot() string {
